@@ -99,6 +99,15 @@ pub fn run(rep: &Report) -> i32 {
             judge_text(rep, &text, "family", true);
         }
     });
+    // (1b) the small families of C01: deep environments, wide calls, wide literals, twin functions
+    let extras = c01::extra_program_texts(quick);
+    rep.transition(extras.len() as u64);
+    par_for(&extras, rep, 8, |_, text| {
+        if fresh(text) {
+            rep.state();
+            judge_text(rep, text, "family-extra", true);
+        }
+    });
     // (2) every single-edit near miss of the C04 bases (whatever the front end lets through must compile)
     let bases = c04::base_programs(quick);
     par_for(&bases, rep, 1, |bi, (name, base)| {
